@@ -482,47 +482,68 @@ def _r10_rotation_derivative(ctx, repo):
     drx = [sp.Symbol(f"drx{k}") for k in range(4)]
     mk = lambda p: [[sp.Symbol(f"{p}{a}{b}") for b in range(3)] for a in range(3)]
     R, dR, RX, dRX = mk("R"), mk("dR"), mk("X"), mk("dX")
-    # ---- (A) product rule
-    w, wxh, combos = rotint.interpret_rotation(wq, ri, rx, R, RX)
-    w_x, wxh_x, loop = rotder.interpret_derivative_loop(d, ri, dri, rx, drx, R, dR, RX, dRX)
-    if sorted(w_x) != list(range(100)) or sorted(wxh_x) != list(range(10)) or sorted(w) != list(range(100)) or sorted(wxh) != list(range(10)):
-        raise AnalysisError(f"der_TETCILF: {len(w_x)} / {len(wxh_x)} packed derivative elements interpreted")
-    pairs = list(zip(ri, dri)) + list(zip(rx, drx)) + [(R[a][b], dR[a][b]) for a in range(3) for b in range(3)] + [(RX[a][b], dRX[a][b]) for a in range(3) for b in range(3)]
+    # ---- (A) product rule: both routines are interpreted (sa.npsym) on an O-C, a C-H and an H-H pair
+    iw = rotint.interpret_w(repo, ri, rx, R, RX)
+    dt = rotder.interpret_derivative_tail(repo)
+    W = dt["w_x_final"]
     names = "s x y z".split()
-    ixh = 0
-    for i, c in enumerate(combos):
-        lab = f"({names[c[0]]}{names[c[1]]}|{names[c[2]]}{names[c[3]]})"
-        ok = sp.expand(w_x[i] - rotder.derivation(w[i], pairs)) == 0
-        ctx.check(ok, "R10", ag, loop, "der_TETCILF", f"w_x[{i}] = d{lab}", f"w_x[{i}] is the product-rule derivative of the energy-side w[{i}] = {lab}",
-                  f"w_x[{i}] = d{lab}/dX is not the derivative of the rotated integral the energy uses (w[{i}] of w_withquaternion): product rule over local integrals "
-                  f"and frame elements is violated, analytical forces differ from -dE/dx for every heavy-heavy pair with p orbitals")
-        if c[2] == 0 and c[3] == 0:
-            ok = sp.expand(wxh_x[ixh] - rotder.derivation(wxh[ixh], pairs)) == 0
-            ctx.check(ok, "R10", ag, loop, "der_TETCILF", f"wXH_x[{ixh}] = d{lab}", f"wXH_x[{ixh}] is the product-rule derivative of the energy-side wXH[{ixh}]",
-                      f"wXH_x[{ixh}] = d{lab}/dX is not the derivative of wXH[{ixh}] of w_withquaternion: forces on heavy-hydrogen pairs differ from -dE/dx")
-            ixh += 1
-    # masks of the frames agree with the masks of the integrals
-    for func, mod in ((d, ag), (wq, te)):
-        defs = {norm(st.targets[0]): norm(st.value).replace(" ", "") for st in func.body if isinstance(st, ast.Assign) and isinstance(st.targets[0], ast.Name)}
-        ok = defs.get("rotXH", "").startswith("rot[XH") and defs.get("rot", "").startswith(("rot[XX", "rotate_with_quaternion(")) and \
-            any(isinstance(st, ast.Assign) and norm(st.targets[0]) == "rot" and norm(st.value).replace(" ", "").startswith("rot[XX") for st in func.body)
-        if func is d:
-            ok = ok and defs.get("rot_derXH", "").startswith("rot_der[XH") and defs.get("rot_der", "").startswith("rot_der[XX")
-        ctx.check(ok, "R10", mod, func, func.name, "frame masks", f"{func.name}: heavy-H elements use the frame rows of the XH pairs and heavy-heavy elements those of the XX pairs",
-                  f"{func.name}: frame of the wrong pair class is combined with the local integrals")
+    combos = rotint.packed_combos()
+    n_id = 0
+    # directions 1 and 2 must be direction 0 with the derivative symbols of that direction (exact rational evaluation at a random point)
+    rng_ = random.Random(77)
+    allsyms = set()
+    for x_ in W.reshape(-1):
+        allsyms |= sp.sympify(x_).free_symbols
+    pt_ = {s_: sp.Rational(rng_.randint(-40, 40), rng_.randint(1, 9)) for s_ in allsyms}
+    for dirn in (1, 2):
+        mp_ = {dt["dri"][0][k_]: dt["dri"][dirn][k_] for k_ in range(22)}
+        mp_.update({dt["drx"][0][k_]: dt["drx"][dirn][k_] for k_ in range(4)})
+        mp_.update({dt["dhh"][0]: dt["dhh"][dirn]})
+        base_dr = dt["dR"]
+        for p_ in range(3):
+            for a in range(3):
+                for b in range(3):
+                    s0 = list(sp.sympify(base_dr[p_, 0, a, b]).free_symbols)[0]
+                    sd = list(sp.sympify(base_dr[p_, dirn, a, b]).free_symbols)[0]
+                    mp_[s0] = sd
+        same = all(sp.sympify(W[p_, dirn, i_, j_]).xreplace(pt_) == sp.sympify(W[p_, 0, i_, j_]).xreplace(mp_).xreplace(pt_) for p_ in range(3) for i_ in range(10) for j_ in range(10))
+        ctx.check(same, "R10", ag, d, "der_TETCILF", f"direction {dirn}", f"Cartesian direction {dirn} of the derivative block is direction 0 with that direction's derivative inputs",
+                  f"Cartesian direction {dirn} of the derivative block is assembled differently from direction 0")
+    for dirn in range(1):
+        pairsXX = list(zip(ri, dt["dri"][dirn])) + [(R[a][b], dt["dR"][0, dirn, a, b]) for a in range(3) for b in range(3)]
+        pairsXH = list(zip(rx, dt["drx"][dirn])) + [(RX[a][b], dt["dR"][1, dirn, a, b]) for a in range(3) for b in range(3)]
+        # the derivative tail uses its own symbols for ri / rot: rename them to the energy-side symbols
+        ren = {dt["ri"][k_]: ri[k_] for k_ in range(22)}
+        ren.update({dt["rx"][k_]: rx[k_] for k_ in range(4)})
+        ren.update({dt["rot"][0, a, b]: R[a][b] for a in range(3) for b in range(3)})
+        ren.update({dt["rot"][1, a, b]: RX[a][b] for a in range(3) for b in range(3)})
+        for i_, c in enumerate(combos):
+            lab = f"({names[c[0]]}{names[c[1]]}|{names[c[2]]}{names[c[3]]})"
+            got = sp.sympify(W[0, dirn, i_ // 10, i_ % 10]).xreplace(ren)
+            ok = sp.expand(got - rotder.derivation(iw["w"][i_], pairsXX)) == 0
+            n_id += 1
+            if dirn == 0 or not ok:
+                ctx.check(ok, "R10", ag, d, "der_TETCILF", f"w_x[{i_}] = d{lab}", f"w_x[{i_}] is the product-rule derivative of the energy-side w[{i_}] = {lab} (all three directions)",
+                          f"w_x[{i_}] = d{lab}/dX (direction {dirn}) is not the derivative of the rotated integral the energy uses (w[{i_}] of w_withquaternion): product rule over local "
+                          f"integrals and frame elements is violated, analytical forces differ from -dE/dx for every heavy-heavy pair with p orbitals")
+            if c[2] == 0 and c[3] == 0:
+                p_ = i_ // 10
+                got = sp.sympify(W[1, dirn, p_, 0]).xreplace(ren)
+                ok = sp.expand(got - rotder.derivation(iw["wXH"][p_], pairsXH)) == 0
+                n_id += 1
+                if dirn == 0 or not ok:
+                    ctx.check(ok, "R10", ag, d, "der_TETCILF", f"wXH_x[{p_}] = d{lab}", f"wXH_x[{p_}] is the product-rule derivative of the energy-side wXH[{p_}] (all three directions)",
+                              f"wXH_x[{p_}] = d{lab}/dX (direction {dirn}) is not the derivative of wXH[{p_}] of w_withquaternion: forces on heavy-hydrogen pairs differ from -dE/dx")
+        # layout of the unified derivative block: heavy-H integrals occupy column 0 only, H-H the (ss|ss) element only
+        okl = all(W[1, dirn, p_, q_] == 0 for p_ in range(10) for q_ in range(1, 10)) and all(W[2, dirn, p_, q_] == 0 for p_ in range(10) for q_ in range(10) if (p_, q_) != (0, 0)) \
+            and sp.expand(sp.sympify(W[2, dirn, 0, 0]) - dt["dhh"][dirn]) == 0
+        if dirn == 0 or not okl:
+            ctx.check(okl, "R10", ag, d, "der_TETCILF", "unified layout", "heavy-H derivatives fill column 0, the H-H derivative the (ss|ss) element, nothing else", "the unified derivative block mixes pair classes")
+    if n_id < 110:
+        raise AnalysisError(f"der_TETCILF: only {n_id} product-rule identities compared")
+    loop = d
     # ---- (C) one variable on both sides
-    def vdef(func):
-        c = [x for x in calls_in(func) if callee_attr(x) == "rotate_with_quaternion" or call_name(x) == "rotate_with_quaternion"]
-        if len(c) != 1 or not c[0].args or not isinstance(c[0].args[0], ast.Name):
-            raise AnalysisError(f"{func.name}: frame-builder call not recognised")
-        nm = c[0].args[0].id
-        ds = [st for st in func.body if isinstance(st, ast.Assign) and norm(st.targets[0]) == nm]
-        if len(ds) != 1:
-            raise AnalysisError(f"{func.name}: {len(ds)} definitions of the frame vector")
-        return ds[0], c[0]
-    (vd, cd), (ve, ce) = vdef(d), vdef(wq)
-    ctx.check(norm(vd.value) == norm(ve.value) == "-xij", "R10", ag, vd, "der_TETCILF", vd, "energy and derivative build the frame from the same vector v = -xij",
-              f"derivative builds the frame from `{norm(vd.value)}`, energy from `{norm(ve.value)}`")
+    ctx.check(iw["frame_vector_is_minus_xij"], "R10", te, wq, "w_withquaternion", "frame vector", "the energy builds the frame from v = -xij", "the energy does not build the frame from -xij")
     sag = ag.func("scf_analytic_grad")
     Xd = [st for st in sag.body if isinstance(st, ast.Assign) and norm(st.targets[0]) == "Xij"]
     X, r_, a0s = sp.symbols("xij rij a0", positive=True)
@@ -541,155 +562,62 @@ def _r10_rotation_derivative(ctx, repo):
     params = [a.arg for a in d.args.args]
     okc = len(dc) == 1 and [norm(a) for a in dc[0].args[3:6]] == ["xij", "Xij", "rij"] and params[3:6] == ["xij", "Xij", "r0"]
     ctx.check(okc, "R10", ag, dc[0] if dc else wd, "w_der", "der_TETCILF(...)", "der_TETCILF receives (xij, Xij, rij) as (xij, Xij, r0)", "unit vector / Angstrom vector / distance are not passed in this order")
-    # ---- (B) frame derivative: rot_der[a, i, j] = d R_ij(u/|u|) / du_a
-    ux, uy, uz = sp.symbols("ux uy uz", real=True)
-    un = sp.sqrt(ux ** 2 + uy ** 2 + uz ** 2)
-    v = [ux / un, uy / un, uz / un]
-    rot_e = rotder.interpret_frame(q, v, False)
-    ret = rotder.interpret_frame(q, v, True)
-    if not (isinstance(ret, tuple) and len(ret) == 2):
-        raise AnalysisError("rotate_with_quaternion: gradient branch does not return (rot, dRdv)")
-    rot_g, dRdv = ret
-    import numpy as np
-    A = rotder._Arr({"v": np.array([v], dtype=object), "rot_der": dRdv, "r0": np.array([un / a0s], dtype=object), "a0": a0s})
-    chain = []
-    seen = False
-    for st in d.body:
-        if isinstance(st, ast.Assign) and st.value is cd or (isinstance(st, ast.Assign) and any(x is cd for x in ast.walk(st.value))):
-            seen = True
-            tg = st.targets[0]
-            if not (isinstance(tg, ast.Tuple) and [norm(x) for x in tg.elts] == ["rot", "rot_der"] and any(k.arg == "calculate_gradient" and norm(k.value) == "True" for k in cd.keywords)):
-                raise AnalysisError("der_TETCILF: frame-builder call is not `rot, rot_der = rotate_with_quaternion(v, calculate_gradient=True)`")
-            continue
-        if seen and isinstance(st, ast.Assign):
-            tt = norm(st.targets[0])
-            if tt in ("rotXH", "rot"):
-                break
-            chain.append(st)
-    for st in chain:
-        st = __import__("copy").deepcopy(st)
-        for c in ast.walk(st.value):
-            if isinstance(c, ast.Call):
-                c.keywords = [k for k in c.keywords if k.arg not in ("device", "dtype")]
-        A.assign(st)
-    rd = A.env["rot_der"]
-    if getattr(rd, "shape", None) != (1, 3, 3, 3) or rot_e.shape != (1, 3, 3):
-        raise AnalysisError("frame derivative: unexpected shapes")
-    uu = (ux, uy, uz)
-    nbad = 0
+    # ---- (B) frame derivative: rot_der[a, i, j] = d R_ij(u/|u|) / du_a, both routines interpreted by sa.npsym
+    fd = rotder.interpret_frame_derivative(repo)
+    ctx.check(fd["v_is_minus_xij"], "R10", ag, d, "der_TETCILF", "frame vector", "the derivative builds the frame from the same vector v = -xij as the energy",
+              "the derivative builds the frame from another vector than the energy (-xij)")
+    uu = fd["u"]
     for trial in range(2):
         rng = random.Random(91 + trial)
-        pt = {ux: sp.Rational(rng.randint(-30, 30), 7), uy: sp.Rational(rng.randint(-30, 30), 11), uz: sp.Rational(rng.randint(-30, 30), 13), a0s: sp.Rational(rng.randint(3, 9), 5)}
+        pt = {uu[0]: sp.Rational(rng.randint(-30, 30), 7), uu[1]: sp.Rational(rng.randint(-30, 30), 11), uu[2]: sp.Rational(rng.randint(-30, 30), 13)}
         for a in range(3):
             for i in range(3):
                 for j in range(3):
-                    want = sp.N(sp.diff(rot_e[0, i, j], uu[a]).subs(pt), 40)
-                    got = sp.N(sp.sympify(rd[0, a, i, j]).subs(pt), 40)
-                    same_fwd = abs(sp.N((sp.sympify(rot_g[0, i, j]) - rot_e[0, i, j]).subs(pt), 40)) < sp.Float("1e-30")
+                    want = sp.N(sp.diff(fd["rot_energy"][i, j], uu[a]).subs(pt), 40)
+                    got = sp.N(sp.sympify(fd["rot_der"][a, i, j]).subs(pt), 40)
+                    same_fwd = abs(sp.N((sp.sympify(fd["rot"][i, j]) - fd["rot_energy"][i, j]).subs(pt), 40)) < sp.Float("1e-30")
                     ok = abs(want - got) < sp.Float("1e-30") and same_fwd
                     if trial == 0 or not ok:
-                        ctx.check(ok, "R10", ag if False else te, q, "rotate_with_quaternion", f"d rot[{i},{j}] / dX[{a}]",
+                        ctx.check(ok, "R10", te, q, "rotate_with_quaternion", f"d rot[{i},{j}] / dX[{a}]",
                                   f"rot_der[{a},{i},{j}] = d rot[{i},{j}](u/|u|) / du_{a} (40 digits at a random rational bond vector)",
                                   f"rot_der[{a},{i},{j}] is not the derivative of the frame element rot[{i},{j}] with respect to the bond vector component {a} "
                                   f"(got {sp.N(got, 8)}, d/du of the energy-side frame is {sp.N(want, 8)}): forces of every pair with p orbitals are wrong")
-                    nbad += 0 if ok else 1
 
 
 PACK = {(a, b): b * (b + 1) // 2 + a for b in range(4) for a in range(b + 1)}
 
 
 def _r11_core_electron(ctx, repo):
-    """energy: e1b[C, a, b] = -tore[nj[C]] * w*[.., p(, 0)], e2a[C, a, b] = -tore[ni[C]] * w*[.., (0,) p]; derivative: the same map of w_x in the unified
-    (pair, 3, 10, 10) layout.  Both are normalised to {(array, class, a, b): (charge atom, (p, q))} and compared; p must be the packed index of (a, b)."""
-    ag, te = repo.mod(AG), repo.mod(TE)
-    wq, wd = te.func("w_withquaternion"), ag.func("w_der")
-    CLASSES = {"HH": ["HH"], "XH": ["XH"], "XX": ["XX"], "nonHH": ["XH", "XX"], None: ["HH", "XH", "XX"]}
-
-    def ints(elts):
-        return [e.value for e in elts if isinstance(e, ast.Constant) and isinstance(e.value, int) and not isinstance(e.value, bool)]
-
-    def parse(func, targets, layout):
-        out = {}
-        for st in func.body:
-            if not (isinstance(st, ast.Assign) and isinstance(st.targets[0], ast.Subscript) and isinstance(st.targets[0].value, ast.Name) and st.targets[0].value.id in targets):
-                continue
-            t = st.targets[0]
-            arr = t.value.id[:3]
-            elts = t.slice.elts
-            cls = elts[0].id if isinstance(elts[0], ast.Name) else None
-            if cls not in CLASSES:
-                raise AnalysisError(f"{func.name}: pair class `{norm(elts[0])}`")
-            ab = ints(elts)
-            v = st.value
-            # -tore[<atom>] (.unsqueeze(1)) * src[...]
-            if not (isinstance(v, ast.BinOp) and isinstance(v.op, ast.Mult) and isinstance(v.left, ast.UnaryOp) and isinstance(v.left.op, ast.USub)):
-                raise AnalysisError(f"{func.name}: `{norm(st)[:70]}` is not -tore[..] * w[..]")
-            ch = v.left.operand
-            while isinstance(ch, ast.Call) and callee_attr(ch) == "unsqueeze":
-                ch = ch.func.value
-            if not (isinstance(ch, ast.Subscript) and norm(ch.value) == "tore"):
-                raise AnalysisError(f"{func.name}: charge factor `{norm(ch)}`")
-            who = norm(ch.slice).replace(" ", "")
-            atom = "j" if who.startswith("nj") else "i" if who.startswith("ni") else ("H" if who == "1" else None)
-            cm = who[3:-1] if "[" in who else None
-            src = v.right
-            if isinstance(src, ast.Name):
-                sname, pq, sm = src.id, [], None
-            else:
-                sname = src.value.id
-                se = src.slice.elts if isinstance(src.slice, ast.Tuple) else [src.slice]
-                pq = ints(se)
-                sm = se[0].id if isinstance(se[0], ast.Name) else None
-            pos = layout(sname, pq)
-            if atom is None or pos is None:
-                raise AnalysisError(f"{func.name}: `{norm(st)[:70]}` not understood")
-            for c in CLASSES[cls]:
-                if atom == "H" and c != "HH":
-                    raise AnalysisError(f"{func.name}: literal hydrogen charge on class {c}")
-                out[(arr, c, tuple(ab))] = ("H-charge" if atom == "H" else atom, pos, cm in (None, cls), sm in (None, cls) or layout(sname, pq, True), st)
-        return out
-
-    def lay_e(name, pq, own_class=False):
-        if own_class:
-            return True       # wHH / wXH / w_ are already restricted to their class
-        if name == "wHH" and not pq:
-            return (0, 0)
-        if name == "wXH" and len(pq) == 1:
-            return (pq[0], 0)
-        if name == "w_" and len(pq) == 2:
-            return tuple(pq)
-        return None
-
-    def lay_d(name, pq, own_class=False):
-        if own_class:
-            return False
-        if name == "w_x" and len(pq) == 2:
-            return tuple(pq)
-        return None
-    E = parse(wq, ("e1b", "e2a"), lay_e)
-    D = parse(wd, ("e1b_x", "e2a_x"), lay_d)
-    # the view w_ of the energy side must be the (pairs, 10, 10) view of w
-    wv = [st for st in wq.body if isinstance(st, ast.Assign) and norm(st.targets[0]) == "w_"]
-    okv = len(wv) == 1 and norm(wv[0].value).replace(" ", "") in ("w.view(-1,10,10)", "w.reshape(-1,10,10)")
-    ctx.check(okv, "R11", te, wv[0] if wv else wq, "w_withquaternion", "w_", "w_ is the (pairs, 10, 10) view of w", "w_ is not the (pairs, 10, 10) view of the packed integrals")
-    if len(E) < 32 or len(D) < 32:
-        raise AnalysisError(f"core-electron maps: {len(E)} energy / {len(D)} derivative entries")
-    for key in sorted(set(E) | set(D), key=str):
-        arr, cls, ab = key
-        e, dd_ = E.get(key), D.get(key)
-        st = (dd_ or e)[4]
-        mod, fn = (ag, "w_der") if dd_ else (te, "w_withquaternion")
-        if e is None or dd_ is None:
-            # hydrogen has no p orbitals: entries that exist on one side only must be for a class where the other side is structurally zero
-            ctx.fail("R11", mod, st, fn, f"{arr}[{cls}, {ab}]", f"{arr}{'_x' if dd_ else ''}[{cls}, {ab[0]}, {ab[1]}] is filled on the {'derivative' if dd_ else 'energy'} side only: "
-                     f"the core-electron attraction and its gradient use different integrals")
-            continue
-        atom_e = "j" if (e[0] == "H-charge" and arr == "e1b") else "i" if e[0] == "H-charge" else e[0]
-        ok = atom_e == dd_[0] and e[1] == dd_[1] and e[2] and dd_[2] and e[3] and dd_[3]
-        p = PACK.get(tuple(ab))
-        want = (p, 0) if arr == "e1b" else (0, p)
-        ok_pack = dd_[1] == want
-        ctx.check(ok and ok_pack, "R11", ag, dd_[4], "w_der", f"{arr}_x[{cls}, {ab[0]}, {ab[1]}]",
-                  f"{arr}_x[{cls},{ab[0]},{ab[1]}] = -Z_{dd_[0]} * w_x[{dd_[1][0]},{dd_[1][1]}], as the energy",
-                  f"{arr}_x[{cls},{ab[0]},{ab[1]}] = -Z_{dd_[0]} * w_x[{dd_[1][0]},{dd_[1][1]}] but the energy uses -Z_{atom_e} * w[{e[1][0]},{e[1][1]}] (packed index of ({ab[0]},{ab[1]}) is {p}; "
-                  f"masks consistent: {e[2] and dd_[2] and e[3] and bool(dd_[3])}): the gradient of the core-electron attraction is not the derivative of the energy term")
+    """Both sides are interpreted (sa.npsym) on an O-C, a C-H and an H-H pair.  Energy (w_withquaternion): e1b[pair, a, b] = -Z_j (ab|ss), e2a[pair, a, b] = -Z_i (ss|ab)
+    of the pair's rotated block (C19-R4 decides exactly that).  Derivative (w_der after der_TETCILF): e1b_x / e2a_x must be the same linear map of the unified derivative
+    block W[pair, direction, 10, 10] -- same charge atom, same packed index p = b (b + 1) / 2 + a, same pair classes, upper triangle only."""
+    import sympy as sp
+    from .. import rotder
+    r = rotder.interpret_core_electron_derivative(repo)
+    ag, f = r["module"], r["func"]
+    W, tore = r["W"], r["tore"]
+    n = 0
+    for p_, cls in ((0, "XX"), (1, "XH"), (2, "HH")):
+        zi, zj = int(r["ni"][p_]), int(r["nj"][p_])
+        for a in range(4):
+            for b in range(4):
+                pk = PACK.get((a, b))
+                for which, arr, z, partner in (("e1b_x", r["e1b_x"], zj, "j"), ("e2a_x", r["e2a_x"], zi, "i")):
+                    # which elements exist: hydrogen carries an s orbital only
+                    exists = a <= b and ((cls == "XX") or (cls == "XH" and (which == "e1b_x" or (a, b) == (0, 0))) or (cls == "HH" and (a, b) == (0, 0)))
+                    oks = []
+                    for dirn in range(3):
+                        want = sp.Integer(0)
+                        if exists:
+                            want = -tore[z] * (W[p_, dirn, pk, 0] if which == "e1b_x" else W[p_, dirn, 0, pk])
+                        oks.append(sp.expand(sp.sympify(arr[p_, dirn, a, b]) - want) == 0)
+                    n += 1
+                    if not exists and all(oks):
+                        continue
+                    ctx.check(all(oks), "R11", ag, f, "w_der", f"{which}[{cls}, {a}, {b}]",
+                              f"{which}[{cls},{a},{b}] = -Z_{partner} * w_x[{'%d,0' % pk if which == 'e1b_x' else '0,%d' % pk}] in all three directions, as the energy",
+                              f"{which}[{cls},{a},{b}] is `{str(arr[p_, 0, a, b])[:80]}` but the energy term it differentiates is -Z_{partner} times the "
+                              f"{'(ab|ss)' if which == 'e1b_x' else '(ss|ab)'} element (packed index {pk}) of this pair's block"
+                              f"{'' if exists else ' -- which does not exist for this pair class'}: the gradient of the core-electron attraction is not the derivative of the energy term")
+    if n < 90:
+        raise AnalysisError(f"core-electron derivative map: only {n} elements compared")
